@@ -5,7 +5,7 @@
    a list of tokens and single spaces, and its bytes) and JsPrint/Indent.v ([jsE] / [jsS], parse.Indenter and the JS()
    methods that decide what goes through the indenting writer and what bypasses it).  Both are tied to js/ast.go and
    util.go by correspondence runs; the parser is the model of C03 ([parse]). *)
-From Verif Require Import Common.Base Gen.PrattTable JsExpr.Syntax JsExpr.Pratt JsExpr.Spec
+From Verif Require Import Common.Base Gen.PrattTable JsExpr.Syntax JsExpr.Pratt JsExpr.Spec JsExpr.Grammar
   JsPrint.Print JsPrint.Proofs JsPrint.Glue JsPrint.Indent JsPrint.IndentProofs.
 
 (* Print the tree of any accepted token list and read the written tokens again ([ptoks]: the items without the
@@ -22,10 +22,11 @@ Theorem print_retokenises_partial :
 Proof. exact print_reparses_proof. Qed.
 Print Assumptions print_retokenises_partial.
 
-(* The same for every grammatical spelling (with or without the cover-grammar trailing comma) of every tree. *)
+(* The same from the grammar: the tree of every derivation of the standard's productions (JsExpr/Grammar.v, any
+   nonterminal of the operator fragment) prints to tokens that are accepted and give that tree back (modulo [ng]). *)
 Theorem print_reparses_spelling :
-  forall q inf ts t, spells q inf ts t -> parse inf prec_OpExpr (ptoks (pitems t)) = Ok (ng t, []).
-Proof. exact print_reparses_spelling_proof. Qed.
+  forall inf n ts t, JsExpr.Grammar.derives inf n ts t -> parse inf prec_OpExpr (ptoks (pitems t)) = Ok (ng t, []).
+Proof. exact print_reparses_derivation_proof. Qed.
 Print Assumptions print_reparses_spelling.
 
 (* Wherever the printer writes two tokens with no space between them ([gaps]), the pair is safe for a longest-match
